@@ -24,7 +24,7 @@
    correspondence of Client.v/Server.v/Tunnel.v with the C code plus the exactly-once / bounded-time
    oracle on the real programs in virtual time. *)
 From Coq Require Import List Arith Bool Lia NArith.
-From Iodine Require Import ProtoUp ProtoUpProofs ProtoDown ProtoDownProofs ProtoLive Client ClientLoop TimerProofs.
+From Iodine Require Import ProtoUp ProtoUpProofs ProtoDown ProtoDownProofs ProtoLive Client ClientLoop TimerProofs Server ServerLoop.
 Import ListNotations.
 
 Theorem C02_upstream_clean_path_exactly_once_in_order_partial :
@@ -108,3 +108,12 @@ Proof.
   - exact (overdue_wakeup_progress zc unz L e H1 H2 H3 H4 H5).
 Qed.
 Print Assumptions C02_busy_tun_cannot_starve_retransmit.
+
+(* the server's select loop (ServerLoop.v, tied to the real tunnel() by scripted-select histories): back-pressure -- while
+   no live session can take another downstream packet the tun device is not read, the iteration is a plain timeout *)
+Theorem C02_server_tun_backpressure :
+  forall login zc unz c st prev now pkt,
+  all_waiting (sweep_clear st prev) prev = true ->
+  siter login zc unz c st prev (SLTun now pkt) = siter login zc unz c st prev (SLTimeout now).
+Proof. exact siter_backpressure. Qed.
+Print Assumptions C02_server_tun_backpressure.
